@@ -44,4 +44,5 @@ def main(tier):
     chk.run("R-PASSRET", P.passret, r, floor=12, control=lambda: P.control_passret(r))
     chk.run("R-PIPE", P.pipe, r, floor=12, control=lambda: P.control_pipe(r))
     chk.run("R-TOKENSHAPE", S.tokenshape, r, floor=3)
+    chk.run("R-FOREIGNFILE", S.foreignfile, r, floor=8)
     return chk.finish()
